@@ -253,6 +253,11 @@ def classify_copy_diff(d):
     return None
 
 
+#: frozen copy of the writer's documented unsigned-integer features (FEATURES_UINT32/64)
+UINT_BY_DESIGN = frozenset(["fl1_max", "fl1_npeaks", "fl2_max", "fl2_npeaks", "fl3_max",
+                            "fl3_npeaks", "index", "ml_class", "nevents", "frame"])
+
+
 def check_condense(ctx, path_in, path_out, store_anc, store_basin, witness=None):
     import h5py
     import dclab
@@ -289,7 +294,9 @@ def check_condense(ctx, path_in, path_out, store_anc, store_basin, witness=None)
                 diffs.append({"feature": f, "missing_in_output": True})
                 continue
             got = eo[f][:]
-            if got.dtype.kind in "ui" and got.dtype != exp.dtype:
+            if got.dtype.kind in "ui" and got.dtype != exp.dtype and f in UINT_BY_DESIGN:
+                # (only the features the writer stores as unsigned integers by design; any
+                # other feature keeps the input's values and kind)
                 if not wmon.representable(exp, got.dtype):
                     if dscmp.arr_equal(got, wmon.hdf5_int_conversion(exp, got.dtype)):
                         unsigned.append(f)
